@@ -408,7 +408,12 @@ def check_contract(
             )
             if sig not in distinct:
                 distinct.add(sig)
-            if len(sc.log) > env.log0 or exc is not None:
+            changed = any(
+                not env._same(vars(o), vars(c)) for o, c in env.snap.pairs
+                if o is not sc.log
+            )
+            if len(sc.log) > env.log0 or exc is not None \
+                    or res is not None or changed:
                 nontrivial += 1
             if len(samples) < 3 and (len(sc.log) > env.log0):
                 samples.append({
@@ -505,3 +510,106 @@ def REBUILD(sc: Scenario) -> Scenario:
         }[d[1]]
         return mk_server(cls, d[2], d[3], d[4])
     raise KeyError(d)
+
+
+# ------------------------------------------------- scheduler scenarios
+ADDRS = [RuntimeAddress(9, k, 0) for k in range(4)]
+
+
+def mk_sched(
+    cls: Any, totals: tuple[int, ...], idle: tuple[int, ...],
+    caches: tuple[tuple, ...], ntasks: tuple[int, ...], lower: int = 0,
+    mgr: tuple | None = None,
+) -> Scenario:
+    log: list = []
+    s = object.__new__(cls)
+    econns = base_fields(
+        s, log, len(totals), list(idle), list(totals), list(ntasks),
+        [list(c) for c in caches], lower=lower,
+    )
+    conns = list(econns)
+    if cls is Manager:
+        s.upstream = FakeConn('up', log)
+        conns.append(s.upstream)
+        s.last_num_idle_sent_up = mgr[0] if mgr else s.num_idle_workers
+        s.most_recent_read_submit = mgr[1] if mgr else None
+    else:
+        s.clients = {}
+        s.tasks = {}
+        s.mailbox_to_task_dict = {}
+        s.mailboxes = {}
+        s.mailbox_counter = 0
+    desc = ('sched', cls.__name__, totals, idle, caches, ntasks, lower, mgr)
+    sc = Scenario(s, log, desc)
+    sc.conns = conns + [FakeConn('stranger', log)]
+    sc.uuids = UUIDS[:1]
+    sc.ints = set(range(-2, 6))
+    sc.extra['worker_ids'] = [e.id for e in s.employees]
+    sc.extra['foreign_workers'] = [lower + len(totals) + 3]
+    sc.extra['addrs'] = list(ADDRS)
+    sc.extra['employee_conns'] = econns
+    return sc
+
+
+def sched_scenarios(cls: Any, tier: str = 'quick') -> Iterator[Scenario]:
+    max_emp = 2 if tier == 'quick' else 3
+    cache_opts: list[tuple] = [
+        (), ((ADDRS[0], 1),), ((ADDRS[0], 2), (ADDRS[1], 1)),
+    ]
+    if tier != 'quick':
+        cache_opts.append(((ADDRS[0], 1), (ADDRS[1], 1), (ADDRS[0], 2)))
+    for n in range(1, max_emp + 1):
+        for totals in itertools.product((1, 2), repeat=n):
+            for idle in itertools.product(*[range(t + 1) for t in totals]):
+                for caches in itertools.product(cache_opts, repeat=n):
+                    if n > 1 and any(len(c) > 1 for c in caches[1:]):
+                        continue    # vary the first cache only
+                    for lower in (0, 4):
+                        if cls is Manager:
+                            for mgr in (
+                                (sum(idle), None), (sum(totals), ADDRS[2]),
+                            ):
+                                yield mk_sched(
+                                    cls, totals, idle, caches, (1,) * n,
+                                    lower, mgr,
+                                )
+                        else:
+                            yield mk_sched(
+                                cls, totals, idle, caches, (1,) * n, lower,
+                            )
+
+
+def employee_scenarios(tier: str = 'quick') -> Iterator[Scenario]:
+    n_max = 3 if tier == 'quick' else 4
+    for n in range(0, n_max + 1):
+        for addrs in itertools.product(ADDRS[:3], repeat=n):
+            for counts in itertools.product((1, 2), repeat=n):
+                log: list = []
+                e = RuntimeEmployee(0, FakeConn('e0', log), 2)
+                e.submit_cache = list(zip(addrs, counts))
+                sc = Scenario(e, log, ('employee', addrs, counts))
+                sc.ints = set(range(-1, n + 2))
+                sc.extra['addr_args'] = list(ADDRS)
+                sc.extra['addrs'] = list(ADDRS)
+                yield sc
+
+
+_OLD_REBUILD = REBUILD
+
+
+def REBUILD(sc: Scenario) -> Scenario:  # noqa: F811
+    d = sc.desc
+    if d[0] == 'sched':
+        cls = {'DetachedServer': DetachedServer, 'Manager': Manager}[d[1]]
+        return mk_sched(cls, *d[2:])
+    if d[0] == 'employee':
+        log: list = []
+        e = RuntimeEmployee(0, FakeConn('e0', log), 2)
+        e.submit_cache = list(zip(d[1], d[2]))
+        new = Scenario(e, log, d)
+        new.ints = set(sc.ints)
+        new.extra.update({
+            k: v for k, v in sc.extra.items() if k in ('addr_args', 'addrs')
+        })
+        return new
+    return _OLD_REBUILD(sc)
